@@ -108,9 +108,9 @@ Theorem C15_optional_member_none : forall s,
   member_loads s = true -> load_cfg_gen (SOpt s) (Some (to_dict_gen (ILeaf VNone))) = Ok (ILeaf VNone).
 Proof. exact optional_member_none_gen. Qed.
 Print Assumptions C15_optional_member_none.
-(* refuted without the side condition: a member that is None whose class has a Tuple field without a default *)
+(* regression witness (repo commit 41db46a): a member that is None whose class has a Tuple field without a default *)
 Theorem C15_witness_absent_member_tuple :
-  load_cfg_gen (SOpt (SNode [("t", SLeaf (TTupFix [TInt; TInt]) None)])) (Some (to_dict_gen (ILeaf VNone))) = Err (Raise "TypeError").
+  load_cfg_gen (SOpt (SNode [("t", SLeaf (TTupFix [TInt; TInt]) None)])) (Some (to_dict_gen (ILeaf VNone))) = Ok (ILeaf VNone).
 Proof. exact witness_absent_member_tuple. Qed.
 Print Assumptions C15_witness_absent_member_tuple.
 Theorem C15_optional_member_some : forall s xs,
